@@ -1,7 +1,7 @@
 (* C13 — cold pipelines are lazy and every subscription is independent. *)
 From Coq Require Import String.
 From RxModel Require Import Indep.
-From RxGen Require OpState.
+From RxGen Require OpState Lazy.
 From RxProofs Require IndepLaws.
 Local Open Scope nat_scope.
 Open Scope string_scope.
@@ -24,6 +24,28 @@ Definition cold_value_ok (row : string * bool) : bool :=
   negb (snd row) || existsb (String.eqb (fst row)) hot_by_design.
 
 Theorem C13_no_shared_cell_in_pipeline_values : forallb cold_value_ok OpState.table = true.
+Proof. vm_compute. reflexivity. Qed.
+
+(* ---- tie to the source: building a pipeline performs no work.  The table (regenerated on every run) lists every function
+   a pipeline is built with - the source constructors of src/observable/*.rs, the default methods of ObservableExt, the
+   `new` functions of src/ops and src/observable - with a flag: true when its body only constructs and returns a value, false
+   when it calls a closure parameter, subscribes / polls / schedules something or calls an observer.  The two conversions
+   that subscribe by definition (to_future and to_stream create their future / stream by subscribing the source) are the
+   only exceptions. ---- *)
+Definition subscribes_by_definition : list string := ["ops/future.rs:new"; "ops/stream.rs:new"].
+
+Definition builds_only (row : string * bool) : bool :=
+  snd row || existsb (String.eqb (fst row)) subscribes_by_definition.
+
+Theorem C13_building_performs_no_work : forallb builds_only Lazy.table = true.
+Proof. vm_compute. reflexivity. Qed.
+
+(* the table is not empty and knows the deferred sources *)
+Example C13_lazy_table_covers :
+  (Nat.leb 120 (List.length Lazy.table),
+   existsb (fun r => String.eqb (fst r) "observable/start.rs:start") Lazy.table,
+   existsb (fun r => String.eqb (fst r) "observable/defer.rs:defer") Lazy.table,
+   existsb (fun r => String.eqb (fst r) "observable.rs:ObservableExt::flat_map") Lazy.table) = (true, true, true, true).
 Proof. vm_compute. reflexivity. Qed.
 
 (* ---- with every operator's state created per subscription: one subscription leaves everything
@@ -49,6 +71,8 @@ Theorem C13_shared_state_would_break_it :
 Proof. exact IndepLaws.shared_state_breaks_independence. Qed.
 
 Check C13_no_shared_cell_in_pipeline_values : forallb cold_value_ok OpState.table = true.
+Check C13_building_performs_no_work : forallb builds_only Lazy.table = true.
+Print Assumptions C13_building_performs_no_work.
 Check C13_subscription_is_pure : forall h pv s, all_fresh pv = true -> sub_run h pv s = (h, run_cold (map fst pv) s).
 Check C13_successive_subscriptions_agree : forall pv s, all_fresh pv = true ->
     forall k h, sub_runs h pv s k = repeat (run_cold (map fst pv) s) k.
